@@ -12,7 +12,7 @@ import traceback
 # library features the evaluator has no summary for: a function that uses one is evaluated with unknown values in the
 # middle, and a difference found behind an unknown value is not a reliable difference
 UNMODELLED_LIBS = ('functools.', 'operator.', 'itertools.', 'contextlib.', 'collections.')
-MODELLED = {'functools.wraps', 'functools.lru_cache', 'functools.cache', 'itertools.repeat', 'collections.abc.Generator',
+MODELLED = {'functools.wraps', 'functools.lru_cache', 'functools.cache', 'functools.partial', 'itertools.repeat', 'collections.abc.Generator',
             'collections.abc.Iterator', 'collections.namedtuple', 'collections.OrderedDict'}
 
 
